@@ -486,3 +486,119 @@ def rule_optpred(ctx, prop: str) -> RuleResult:
                 )
     res.floor = 8
     return res
+
+
+FLOORENC_FILES = ["src/exo/frontend/boundscheck.py", "src/exo/rewrite/new_analysis_core.py"]
+
+
+def rule_floorenc(ctx, prop: str) -> RuleResult:
+    """Integer `/` and `%` are given to the solver through a fresh quotient q constrained by
+    R*q <= L  and  L < R*(q+1)   (q = floor(L / R); L % R = L - R*q).
+    The three sibling encodings (front-end bounds checker; scheduling analysis in SMT and in Z3
+    form) must each state exactly these two constraints.  A strict first inequality has no
+    solution when L is a multiple of R — the hypothesis set becomes inconsistent and EVERY
+    obligation at such a point (in-bounds, positive size, callee assertion) is proved vacuously;
+    a non-strict second one makes q ambiguous."""
+    ix = ctx.ix
+    res = RuleResult("FLOORENC")
+
+    def nrm(e: ast.AST):
+        if isinstance(e, ast.Call) and isinstance(e.func, ast.Attribute) and dotted(e.func.value) in ("SMT", "Z3"):
+            a = e.func.attr
+            if a in ("Int", "IntVal") and len(e.args) == 1:
+                return nrm(e.args[0])
+            if a in ("Times", "Plus", "Minus") and len(e.args) == 2:
+                return ({"Times": "*", "Plus": "+", "Minus": "-"}[a], nrm(e.args[0]), nrm(e.args[1]))
+            return ("call", ast.unparse(e))
+        if isinstance(e, ast.BinOp) and isinstance(e.op, (ast.Mult, ast.Add, ast.Sub)):
+            return ({ast.Mult: "*", ast.Add: "+", ast.Sub: "-"}[type(e.op)], nrm(e.left), nrm(e.right))
+        if isinstance(e, ast.Name):
+            return e.id
+        if isinstance(e, ast.Constant):
+            return e.value
+        return ("?", ast.unparse(e))
+
+    def rel(e: ast.AST):
+        if isinstance(e, ast.Call) and isinstance(e.func, ast.Attribute) and dotted(e.func.value) == "SMT" and len(e.args) == 2 and e.func.attr in ("LT", "LE", "GT", "GE"):
+            a, b = nrm(e.args[0]), nrm(e.args[1])
+            return {"LT": ("<", a, b), "LE": ("<=", a, b), "GT": ("<", b, a), "GE": ("<=", b, a)}[e.func.attr]
+        if isinstance(e, ast.Compare) and len(e.ops) == 1 and isinstance(e.ops[0], (ast.Lt, ast.LtE, ast.Gt, ast.GtE)):
+            a, b = nrm(e.left), nrm(e.comparators[0])
+            return {ast.Lt: ("<", a, b), ast.LtE: ("<=", a, b), ast.Gt: ("<", b, a), ast.GtE: ("<=", b, a)}[type(e.ops[0])]
+        return None
+
+    def mentions(t, name: str) -> bool:
+        if t == name:
+            return True
+        return isinstance(t, tuple) and any(mentions(x, name) for x in t[1:])
+
+    def prod(t, T):  # R*T or T*R -> R
+        if isinstance(t, tuple) and t[0] == "*":
+            if t[2] == T and isinstance(t[1], str):
+                return t[1]
+            if t[1] == T and isinstance(t[2], str):
+                return t[2]
+        return None
+
+    def prod_succ(t, T):  # R*(T+1)
+        if isinstance(t, tuple) and t[0] == "*":
+            for r_, s_ in ((t[1], t[2]), (t[2], t[1])):
+                if isinstance(r_, str) and isinstance(s_, tuple) and s_[0] == "+" and {s_[1], s_[2]} == {T, 1}:
+                    return r_
+        return None
+
+    n_lo = n_hi = 0
+    for file in FLOORENC_FILES:
+        m = ix.module(file)
+        for f in sorted((f for f in ix.all_funcs() if f.file == file), key=lambda f: f.lineno):
+            tmps = set()
+            for n in f.own_nodes() if hasattr(f, "own_nodes") else f.body_nodes():
+                if isinstance(n, ast.Assign) and len(n.targets) == 1 and isinstance(n.targets[0], ast.Name) and n.targets[0].id.endswith("_tmp"):
+                    if any(isinstance(k, ast.Constant) and k.value in ("div_tmp", "mod_tmp") for k in ast.walk(n.value)):
+                        tmps.add(n.targets[0].id)
+            if not tmps:
+                continue
+            res.analysed.append(f"{file}:{f.qualname}")
+            per = {}
+            for n in f.body_nodes():
+                if not isinstance(n, ast.Assign):
+                    continue
+                r = rel(n.value)
+                if r is None:
+                    continue
+                for T in tmps:
+                    if not mentions(r, T):
+                        continue
+                    res.instances += 1
+                    res.nontrivial += 1
+                    op, a, b = r
+                    kind = None
+                    if op == "<=" and prod(a, T) and isinstance(b, str):
+                        kind = ("lo", prod(a, T), b)
+                    elif op == "<" and isinstance(a, str) and prod_succ(b, T):
+                        kind = ("hi", prod_succ(b, T), a)
+                    ok = kind is not None
+                    res.ob(ok)
+                    if ok:
+                        per.setdefault(T, []).append(kind)
+                        if kind[0] == "lo":
+                            n_lo += 1
+                        else:
+                            n_hi += 1
+                    else:
+                        res.add(Finding("FLOORENC", file, n.lineno, f.qualname, f"floor:{T}:{ast.unparse(n.value)[:50]}",
+                                        f"`{ast.unparse(n)[:80]}` is neither `R*{T} <= L` nor `L < R*({T}+1)`: the quotient is not floor(L / R). With a strict first inequality the hypotheses are "
+                                        f"unsatisfiable whenever L is a multiple of R and every bounds / size / assertion obligation there is proved vacuously (flags: f32[2]; flags[i / 4] with i = 8 accepted)"))
+            for T, ks in per.items():
+                los = [k for k in ks if k[0] == "lo"]
+                his = [k for k in ks if k[0] == "hi"]
+                res.instances += 1
+                ok = len(los) == len(his) and len(los) >= 1 and {(k[1], k[2]) for k in los} == {(k[1], k[2]) for k in his}
+                res.ob(ok)
+                res.sample(f"{f.qualname}: {T}: {len(los)} x `R*q <= L`, {len(his)} x `L < R*(q+1)` over the same (R, L): {ok}")
+                if not ok:
+                    res.add(Finding("FLOORENC", file, f.lineno, f.qualname, f"floor-pair:{T}", f"the quotient `{T}` must be constrained from both sides over the same operands (R*q <= L and L < R*(q+1))"))
+    if (n_lo < 6 or n_hi < 6) and not res.findings:
+        raise AnalysisError(f"FLOORENC: expected 6 floor-quotient encodings (bounds checker / and %, analysis core / and % in SMT and Z3 form), found lo={n_lo} hi={n_hi}")
+    res.floor = 12
+    return res
